@@ -145,7 +145,16 @@ def judge(t):
 
 
 def run(scn):
-    t = cs.run_world(scn)
+    root = core.new_root('c07') if scn.get('realfs') else None
+    try:
+        return _run(scn, root)
+    finally:
+        if root:
+            core.drop_root(root)
+
+
+def _run(scn, root):
+    t = cs.run_world(scn, root=root)
     viol = judge(t)
     w = t.world
     if any(c.site == 'src.getData' and not c.ok for c in t.calls) and any(c.site == 'src.getData' and c.ok for c in t.calls):
